@@ -228,6 +228,15 @@ def jobs(tier):
         for ops in itertools.product(small, repeat=3):
             out.append(('history', 'case_history', dict(
                 model='one_compartment_pk_model', ops=list(ops)), FACADE))
+    # dosed model, then every pair of further operations
+    suffix = ['S+', 'S-', 'C', 'Co', 'O1', 'RP', 'D1']
+    for a_ in ('Ad', 'Ai'):
+        for d_ in ('D1', 'D2'):
+            for x_ in suffix:
+                for y_ in suffix:
+                    out.append(('history', 'case_history', dict(
+                        model='one_compartment_pk_model',
+                        ops=[a_, d_, x_, y_]), FACADE))
     # a few deeper, targeted histories
     deep = [['Ai', 'D2', 'S+', 'Ad'], ['Ad', 'D1', 'Co', 'Ai', 'D2'],
             ['Ai', 'RP', 'S+', 'C', 'S-'], ['Ad', 'D2', 'O2', 'RO', 'S+'],
@@ -241,7 +250,8 @@ def jobs(tier):
 BOUNDS = dict(
     quick='library one-compartment model; all 12 + 144 histories of <= 2 '
           'operations, all 216 histories of 3 operations over {Ad, Ai, D1, D2, '
-          'S+, C}; '
+          'S+, C}; all 196 four-step histories (administration, regimen, two '
+          'of {S+, S-, C, Co, O1, RP, D1}); '
           'operations over {Ad, Ai, D1, D2, O1, O2, RP, RO, S+, S-, C, Co} '
           'plus 5 targeted histories of length 4-6',
     thorough='all histories of <= 3 operations on the one-compartment model '
